@@ -62,28 +62,31 @@ def run_batch(pid, seed, tier, nruns, procs, budget_s, chunk=None, keep_first=3)
     with make_executor(procs) as ex:
         pending = collections.deque()
         it = iter(chunks)
-        timeout = 600
+        timeout = 900
 
         def submit_next():
             try:
                 c = next(it)
             except StopIteration:
                 return False
-            pending.append(ex.submit(engine.run_chunk, (pid, seed, c, tier, keep_first, timeout)))
+            pending.append(ex.submit(engine.run_chunk, (pid, seed, c, tier, keep_first, timeout + 90 * len(c))))
             return True
         for _ in range(procs * 3):
             if not submit_next():
                 break
         while pending:
             fut = pending.popleft()
-            results.extend(fut.result(timeout=timeout + 60))
+            results.extend(fut.result(timeout=timeout + 90 * chunk + 120))
+            # once a violation is known the verdict cannot change: do not spend more than a few minutes on the rest
+            if not stopped_early and time.time() - t0 > 240 and any(r['viol'] for r in results):
+                budget_s = 1e-9
             if budget_s and time.time() - t0 > budget_s:
                 stopped_early = True
                 for f in pending:
                     f.cancel()
                 rest = [f for f in pending if not f.cancelled()]
                 for f in rest:
-                    results.extend(f.result(timeout=timeout + 60))
+                    results.extend(f.result(timeout=timeout + 90 * chunk + 120))
                 break
             submit_next()
     results.sort(key=lambda r: r['i'])
@@ -95,7 +98,7 @@ def determinism_recheck(pid, seed, tier, results, procs, k):
     if not results:
         return {'runs': 0, 'mismatches': 0}
     step = max(1, len(results) // k)
-    picks = [results[i] for i in range(0, len(results), step)][:k]
+    picks = [results[i] for i in range(0, len(results), step) if not results[i].get('timing_dependent')][:k]
     picks = list(reversed(picks))
     with make_executor(min(procs, max(1, len(picks)))) as ex:
         futs = [ex.submit(engine.run_chunk, (pid, seed, [r['i']], tier, 0, 600)) for r in picks]
@@ -221,7 +224,7 @@ def check(pid, tier, nruns, procs, seed):
                 futs.append((key, src, ex.submit(engine.shrink, (pid, tier, byrun[src]['choices'], key,
                                                                  mod.SHRINK_RUNS, mod.SHRINK_S))))
             for key, src, fut in futs:
-                sh = fut.result(timeout=mod.SHRINK_S * 4 + 300)
+                sh = fut.result(timeout=mod.SHRINK_S * 4 + 1800)
                 msg = byk[key][0][1]
                 if not sh.get('ok'):
                     # fall back to the unminimised sequence (still an exact replay of the run)
